@@ -34,6 +34,7 @@ def plan(tier, seed):
     shards = [{"kind": "iban", "countries": c, "tier": tier, "_name": f"iban-{i}"} for i, c in enumerate(gen.chunk(cs, p))]
     for i in range(4 if tier == "quick" else 16):
         shards.append({"kind": "misc", "part": i, "parts": 4 if tier == "quick" else 16, "tier": tier, "_name": f"misc-{i}"})
+    shards.append({"kind": "contracts", "tier": tier, "_name": "contracts"})
     return shards
 
 
@@ -125,6 +126,10 @@ def run_misc(shard, mon):
 
 
 def run_shard(shard, out_base):
+    if shard.get("kind") == "contracts":
+        from vf import suite  # noqa: PLC0415
+
+        return suite.run_contract_shard("C05", out_base)
     mon = Mon("C05")
     judge.lib()
     (run_iban if shard["kind"] == "iban" else run_misc)(shard, mon)
